@@ -4,6 +4,7 @@ import os
 import re
 import signal
 import subprocess
+import sys
 import threading
 import time
 
@@ -20,17 +21,44 @@ class HarnessError(Exception):
     pass
 
 
+# The simulator's sysroot: the toolchain's std with Instant::now()/SystemTime::now() routed through a
+# quantisable virtual clock (tools/build_sysroot.py).  None = stock Miri sysroot (fallback: coarse-clock
+# runs are then skipped and a NOTE is printed).
+SYSROOT = None
+
+
+def ensure_sysroot():
+    global SYSROOT
+    p = subprocess.run([sys.executable, os.path.join(VERIF, "tools", "build_sysroot.py")], capture_output=True, text=True, timeout=1800)
+    if p.returncode == 0 and os.path.isdir(p.stdout.strip()):
+        SYSROOT = p.stdout.strip()
+    else:
+        SYSROOT = None
+    return SYSROOT, (p.stderr or "").strip()[-500:]
+
+
 def env_for(miriflags):
     env = dict(os.environ)
     env["MIRIFLAGS"] = " ".join(miriflags)
     env["CARGO_NET_OFFLINE"] = "true"
     env.pop("RUSTFLAGS", None)
     env.pop("CARGO_TARGET_DIR", None)
+    env.pop("MIRI_SYSROOT", None)
+    if SYSROOT:
+        env["MIRI_SYSROOT"] = SYSROOT
+        env["CARGO_TARGET_DIR"] = "target-patched"  # relative to the crate dir (cwd): never mix artefacts of two sysroots
     return env
 
 
-def miriflags(seed, preempt, extra=()):
-    return [f"-Zmiri-seed={seed}", f"-Zmiri-preemption-rate={preempt}"] + BASE_FLAGS + list(extra)
+def miriflags(seed, preempt, extra=(), clockq=0):
+    f = [f"-Zmiri-seed={seed}", f"-Zmiri-preemption-rate={preempt}"] + BASE_FLAGS + list(extra)
+    if clockq and SYSROOT:
+        f.append(f"-Zmiri-env-set=VERIF_CLOCK_QUANTUM_NS={int(clockq)}")  # coarse simulated clock
+    return f
+
+
+def flags_of(job):
+    return miriflags(job["miri_seed"], job["preempt"], job.get("extra_flags", ()), job.get("clockq", 0))
 
 
 def build(sim_dir=SIM_DIR):
@@ -129,7 +157,7 @@ def kill_all_live():
 def run_job(job, sim_dir=SIM_DIR, repo_marker=REPO, timeout_factor=10.0, cancel=None):
     """Execute one simulated run in a fresh process.  Returns a result dict:
     {status: ok|ub|deadlock|harness|timeout, log, stderr, wall, ...}."""
-    flags = miriflags(job["miri_seed"], job["preempt"], job.get("extra_flags", ()))
+    flags = flags_of(job)
     cmd = ["cargo", "+nightly", "miri", "run", "-q", "--offline", "--"] + argv_of(job)
     tmo = max(180.0, timeout_factor * predicted_cost(job))
     t0 = time.time()
